@@ -33,13 +33,16 @@ def build_probe():
 BACKSLASH_NAME = "./ext\\libprobe.so"     # a file in the working directory whose name contains a backslash
 
 
+SEARCH_NAME = "libprobe_sp.so"             # a bare file name: resolved by the dynamic loader through LD_LIBRARY_PATH
+
+
 def q(s):
     return '"' + s.replace("\\", "\\\\").replace('"', '\\"') + '"'
 
 
 def assemble(c, lib):
     def callins(call):
-        base = str(lib) if c.get("spell", "plain") == "plain" else BACKSLASH_NAME
+        base = {"plain": str(lib), "backslash": BACKSLASH_NAME, "searchpath": SEARCH_NAME}[c.get("spell", "plain")]
         libpath = base if call != "missing_library" else base + ".absent"
         sym = call if call.startswith("probe_") else ("probe_echo" if call == "missing_library" else "probe_absent")
         return f"\tcall_lib {q(libpath)} {q(sym)}"
@@ -76,7 +79,17 @@ def observe(binary, root, c, lib):
     t = C.run_proc([binary, "transpile", "main.transpiled.mmm"], cwd=d, timeout=10)
     if t["exit"] != 0:
         return dict(exit=-2, out=[], banner=False, err="transpile failed: " + C.strip_ansi(t["err"])[-300:])
-    r = C.run_proc([binary, "execute", "main.mmm"], cwd=d, timeout=10)
+    env = None
+    if c.get("spell") == "searchpath":
+        sp = root / "searchpath"
+        sp.mkdir(exist_ok=True)
+        if not (sp / SEARCH_NAME).exists():
+            try:
+                os.symlink(lib, sp / SEARCH_NAME)
+            except FileExistsError:
+                pass
+        env = dict(LD_LIBRARY_PATH=str(sp))
+    r = C.run_proc([binary, "execute", "main.mmm"], cwd=d, timeout=10, env=env)
     err = C.strip_ansi(r["err"])
     return dict(exit=r["exit"] if not r["timeout"] else 124, out=classify.out_lines(r["out"]), banner="FATAL RUNTIME ERROR" in err, err=err[-1200:])
 
@@ -96,7 +109,7 @@ def run(tier, replay=None):
         c6, g6 = gen.run_generator("GenFfi", work / "gen6", dict(MaxLen=6, ValIdx="{1,2}"))
         cases = gen.dedupe(cases + c6, lambda c: (tuple(c["args"]), c["call"], c["call2"], tuple(c["args2"]), c["spell"], c["where"]))
     for c in cases:
-        c["id"] = ("" if c["where"] == "module" else f"[call in {c['where']}] ") + ("" if c["spell"] == "plain" else "[lib name with backslash] ") + f"{c['call']}({', '.join(v['dbg'] for v in c['vals'])})" + (f" ; {c['call2']}({', '.join(v['dbg'] for v in c['vals2'])})" if c["call2"] else "")
+        c["id"] = ("" if c["where"] == "module" else f"[call in {c['where']}] ") + {"plain": "", "backslash": "[lib name with backslash] ", "searchpath": "[bare lib name on the loader search path] "}[c["spell"]] + f"{c['call']}({', '.join(v['dbg'] for v in c['vals'])})" + (f" ; {c['call2']}({', '.join(v['dbg'] for v in c['vals2'])})" if c["call2"] else "")
     cases.sort(key=lambda c: c["id"])
     root = C.fresh_dir(work / "slots")
     obs = C.pmap(lambda c: observe(binary, root, c, lib), cases)
